@@ -2,7 +2,7 @@
 import fcntl, hashlib, json, os, re, subprocess, sys, time
 
 VERIF = os.path.dirname(os.path.dirname(os.path.abspath(__file__)))
-REPO = "/repo"
+REPO = os.environ.get("VERIF_REPO", "/repo")     # experiments may point the checks at a scratch worktree
 BUILD = os.path.join(VERIF, ".build")
 CACHE = os.path.join(VERIF, ".cache")
 SPEC = os.path.join(VERIF, "spec")
@@ -10,8 +10,9 @@ ZV = os.path.join(BUILD, "harness", "debug", "zv")
 TRACED = os.path.join(BUILD, "traced", "debug", "zinoma")
 NCPU = os.cpu_count() or 4
 
+RESULTS = os.environ.get("VERIF_RESULTS", os.path.join(CACHE, "results"))
 for d in (BUILD, CACHE, os.path.join(CACHE, "tlc"), os.path.join(CACHE, "jobs"), os.path.join(CACHE, "scratch"),
-          os.path.join(CACHE, "results"), os.path.join(VERIF, "evidence"), os.path.join(VERIF, "replays")):
+          RESULTS, os.path.join(VERIF, "evidence"), os.path.join(VERIF, "replays")):
     os.makedirs(d, exist_ok=True)
 
 
@@ -86,11 +87,22 @@ def build_harness():
     """zv mounts /repo/src by #[path]: cargo rebuilds it whenever the working tree changed."""
     with Lock("cargo-harness"):
         t0 = time.time()
-        lock = os.path.join(VERIF, "harness", "Cargo.lock")
+        import shutil
+        hdir = os.path.join(VERIF, "harness")
+        lock = os.path.join(hdir, "Cargo.lock")
         if not os.path.exists(lock):
-            import shutil
             shutil.copy(os.path.join(REPO, "Cargo.lock"), lock)
-        rc, out = run(["cargo", "build", "--offline"], cwd=os.path.join(VERIF, "harness"),
+        if REPO != "/repo":
+            # same harness sources, mounted on another checkout
+            alt = os.path.join(BUILD, "alt_harness")
+            shutil.rmtree(alt, ignore_errors=True)
+            shutil.copytree(hdir, alt, ignore=shutil.ignore_patterns("target"))
+            mp = os.path.join(alt, "src", "main.rs")
+            open(mp, "w").write(open(mp).read().replace('"/repo/src/', '"%s/src/' % REPO))
+            cfgp = os.path.join(alt, ".cargo", "config.toml")
+            open(cfgp, "w").write(open(cfgp).read().replace('"../.build/harness"', '"%s"' % os.path.join(BUILD, "harness")))
+            hdir = alt
+        rc, out = run(["cargo", "build", "--offline"], cwd=hdir,
                       env={"CARGO_NET_OFFLINE": "true"}, timeout=1500)
         if rc != 0:
             raise ToolError("harness build failed:\n" + out[-4000:])
